@@ -241,52 +241,52 @@ func runCutInCase1(c *Case) string {
 // RoModel/Ops/{Filter,Transform,Aggregate}.lean). Operators registered later (more.go) take part
 // through the random chains as soon as Chain.lookupII knows them.
 var cutCatalogue = map[string]bool{
-	"Filter": true,
-	"Distinct": true,
-	"DistinctBy": true,
-	"IgnoreElements": true,
-	"Skip": true,
-	"SkipWhile": true,
-	"SkipLast": true,
-	"Take": true,
-	"TakeWhile": true,
-	"TakeLast": true,
-	"Head": true,
-	"Tail": true,
-	"First": true,
-	"Last": true,
-	"ElementAt": true,
-	"ElementAtOrDefault": true,
-	"Map": true,
-	"MapTo": true,
-	"MapErr": true,
-	"Flatten": true,
-	"Scan": true,
-	"BufferWithCount": true,
-	"Pairwise": true,
-	"StartWith": true,
-	"EndWith": true,
-	"Tap": true,
-	"TapOnSubscribe": true,
-	"TapOnFinalize": true,
-	"Serialize": true,
-	"OnErrorReturn": true,
-	"ThrowIfEmpty": true,
-	"Materialize": true,
-	"MaterializeDematerialize": true,
-	"ToSlice": true,
-	"ToMap": true,
-	"All": true,
-	"Contains": true,
-	"Find": true,
-	"DefaultIfEmpty": true,
+	"Filter":                    true,
+	"Distinct":                  true,
+	"DistinctBy":                true,
+	"IgnoreElements":            true,
+	"Skip":                      true,
+	"SkipWhile":                 true,
+	"SkipLast":                  true,
+	"Take":                      true,
+	"TakeWhile":                 true,
+	"TakeLast":                  true,
+	"Head":                      true,
+	"Tail":                      true,
+	"First":                     true,
+	"Last":                      true,
+	"ElementAt":                 true,
+	"ElementAtOrDefault":        true,
+	"Map":                       true,
+	"MapTo":                     true,
+	"MapErr":                    true,
+	"Flatten":                   true,
+	"Scan":                      true,
+	"BufferWithCount":           true,
+	"Pairwise":                  true,
+	"StartWith":                 true,
+	"EndWith":                   true,
+	"Tap":                       true,
+	"TapOnSubscribe":            true,
+	"TapOnFinalize":             true,
+	"Serialize":                 true,
+	"OnErrorReturn":             true,
+	"ThrowIfEmpty":              true,
+	"Materialize":               true,
+	"MaterializeDematerialize":  true,
+	"ToSlice":                   true,
+	"ToMap":                     true,
+	"All":                       true,
+	"Contains":                  true,
+	"Find":                      true,
+	"DefaultIfEmpty":            true,
 	"DefaultIfEmptyWithContext": true,
-	"Count": true,
-	"Sum": true,
-	"Min": true,
-	"Max": true,
-	"Clamp": true,
-	"Reduce": true,
+	"Count":                     true,
+	"Sum":                       true,
+	"Min":                       true,
+	"Max":                       true,
+	"Clamp":                     true,
+	"Reduce":                    true,
 }
 
 // for each base case: the undisturbed run gives the trace length L; then k = 1..L+1
